@@ -374,3 +374,30 @@ pub fn run(ctx: &Ctx) -> i32 {
         json!({"space_size": total}),
     )
 }
+
+/// C01 (thorough): stdout-silence monitor over every "remove one block" mutant of every shipped .ctehexml
+pub fn monitor_sweep(ctx: &Ctx) -> u64 {
+    let st = build_state();
+    let mut idxs = vec![];
+    for (fi, f) in st.files.iter().enumerate() {
+        if f.fmt != Fmt::Ctehexml {
+            continue;
+        }
+        let n = f.lines.len() as u64;
+        for b in 0..f.blocks.len() as u64 {
+            idxs.push(st.offsets[fi] + 3 * n + b);
+        }
+    }
+    let count = std::sync::atomic::AtomicU64::new(0);
+    sup::supervise("c19", &idxs, std::time::Duration::from_secs(15), &|idx, v| {
+        count.fetch_add(1, std::sync::atomic::Ordering::Relaxed);
+        ctx.eval(1);
+        if v["stdout_bytes"].as_u64().unwrap_or(0) > 0 {
+            let fi = st.offsets.partition_point(|o| *o <= idx) - 1;
+            let (_, d) = st.files[fi].describe(idx - st.offsets[fi]);
+            ctx.violation("library-writes-to-stdout:parse", &format!("parsing/conversion wrote {} bytes to standard output", v["stdout_bytes"]), json!({"case": d}));
+        }
+        true
+    });
+    count.load(std::sync::atomic::Ordering::Relaxed)
+}
